@@ -185,6 +185,12 @@ fn gen_job(rng: &mut Rng, id: u32) -> HttpJob {
         0 | 1 => BodyJob::NoBody,
         2 => BodyJob::Bytes(ByteBuf(binary(rng, big))),
         3 => BodyJob::Text(unicode_text(rng)),
+        4 if rng.chance(1, 3) => BodyJob::Typed {
+            zeta: rng.below(1000) as u32,
+            alpha: unicode_text(rng).chars().take(10).collect(),
+            mid_bits: (rng.below(100_000) as f32 / 10.0 + 0.1).to_bits(),
+            beta: rng.chance(1, 2),
+        },
         4 => BodyJob::Json(serde_json::to_string(&json_value(rng, 0)).unwrap()),
         5 => BodyJob::Form(
             (0..rng.below(5))
@@ -224,10 +230,16 @@ fn gen_job(rng: &mut Rng, id: u32) -> HttpJob {
                 .copied()
                 .filter(|m| m.parse::<crux_http::http::Method>().is_ok())
                 .collect();
-            if !extra.is_empty() && rng.chance(1, 8) {
+            let m = if !extra.is_empty() && rng.chance(1, 8) {
                 (*rng.pick(&extra)).to_string()
             } else {
                 (*rng.pick(&METHODS)).to_string()
+            };
+            // half of the time through the API's named constructor (`get`, `trace`, ...)
+            if ["GET", "HEAD", "POST", "PUT", "DELETE", "CONNECT", "OPTIONS", "TRACE", "PATCH"].contains(&m.as_str()) && rng.chance(1, 2) {
+                format!("{m}!")
+            } else {
+                m
             }
         },
         url: gen_url(rng),
@@ -285,7 +297,7 @@ fn want_request(job: &HttpJob) -> WantRequest {
         BodyJob::NoBody => None,
         BodyJob::Bytes(_) | BodyJob::Reader(_) | BodyJob::SizedReader(_) => Some("application/octet-stream"),
         BodyJob::Text(_) => Some("text/plain;charset=utf-8"),
-        BodyJob::Json(_) => Some("application/json"),
+        BodyJob::Json(_) | BodyJob::Typed { .. } => Some("application/json"),
         BodyJob::Form(_) => Some("application/x-www-form-urlencoded"),
     };
     if let Some(t) = body_type {
@@ -300,10 +312,13 @@ fn want_request(job: &HttpJob) -> WantRequest {
         BodyJob::Bytes(b) | BodyJob::Reader(b) | BodyJob::SizedReader(b) => WantBody::Bytes(b.0.clone()),
         BodyJob::Text(s) => WantBody::Bytes(s.as_bytes().to_vec()),
         BodyJob::Json(s) => WantBody::Json(serde_json::from_str(s).unwrap()),
+        // a typed value is written once, by its own Serialize: field order and number formatting
+        // are the app's, byte for byte
+        BodyJob::Typed { .. } => WantBody::Bytes(serde_json::to_vec(&job.body.typed().unwrap()).unwrap()),
         BodyJob::Form(p) => WantBody::Form(p.iter().map(|p| (p.k.clone(), p.v.clone())).collect()),
     };
     WantRequest {
-        method: job.method.clone(),
+        method: job.method.trim_end_matches('!').to_string(),
         url_without_query: url.to_string(),
         query,
         raw_query,
@@ -800,6 +815,7 @@ fn c14(args: &Args, report: &Arc<Mutex<Report>>, wd: &Watchdog) {
                 BodyJob::Bytes(_) => "bytes",
                 BodyJob::Text(_) => "text",
                 BodyJob::Json(_) => "json",
+                BodyJob::Typed { .. } => "json(typed value)",
                 BodyJob::Form(_) => "form",
                 BodyJob::Reader(_) => "reader(unknown length)",
                 BodyJob::SizedReader(_) => "reader(sized)",
@@ -1066,9 +1082,15 @@ mod caplab_c16 {
                     request_mw.push(MwJob::Mark(next_id));
                     next_id += 1;
                 }
-                request_mw.push(MwJob::Redirect(attempts));
-                if rng.chance(1, 3) {
+                // Redirect itself sits in the per-request stack or (capability API) in the client's
+                if api == Api::Legacy && rng.chance(1, 3) {
+                    client_mw.push(MwJob::Redirect(attempts));
+                } else {
+                    request_mw.push(MwJob::Redirect(attempts));
+                }
+                for _ in 0..rng.below(3) {
                     request_mw.push(MwJob::Mark(next_id));
+                    next_id += 1;
                 }
             } else {
                 for _ in 0..rng.below(4) {
@@ -1131,7 +1153,7 @@ mod caplab_c16 {
             }
             r.count("wire_requests_served", wire.len() as u64);
             if redirect_case {
-                check_redirect(&job, &graph, &wire, &outcomes, &mut problems, &mut r);
+                check_redirect(&job, &graph, &wire, &outcomes, &marks, &mut problems, &mut r);
             } else {
                 check_marks(&job, &marks, &wire, &mut problems, &mut r);
             }
@@ -1316,10 +1338,11 @@ mod caplab_c16 {
         (wire, false)
     }
 
-    fn check_redirect(job: &HttpJob, graph: &Graph, wire: &[HttpRequest], outcomes: &[HttpOut], problems: &mut Vec<(String, String)>, r: &mut Report) {
+    fn check_redirect(job: &HttpJob, graph: &Graph, wire: &[HttpRequest], outcomes: &[HttpOut], marks: &[String], problems: &mut Vec<(String, String)>, r: &mut Report) {
         let attempts = job
-            .request_mw
+            .client_mw
             .iter()
+            .chain(job.request_mw.iter())
             .find_map(|m| if let MwJob::Redirect(n) = m { Some(*n as usize) } else { None })
             .unwrap_or(0);
         r.count("redirect_walks_compared", 1);
@@ -1342,7 +1365,35 @@ mod caplab_c16 {
                     if w.method != job.method {
                         problems.push(("redirect/final-request-method-changed".into(), format!("{} vs {}", w.method, job.method)));
                     }
-                    let _ = last;
+                    // the rest of the stack wraps the final request, once: middleware before
+                    // Redirect sees the original URL, middleware after it the final URL, probes
+                    // pass through neither
+                    let stack: Vec<&MwJob> = job.client_mw.iter().chain(job.request_mw.iter()).collect();
+                    let at = stack.iter().position(|m| matches!(m, MwJob::Redirect(_))).unwrap_or(0);
+                    let mut want: Vec<String> = vec![];
+                    let mut exits: Vec<String> = vec![];
+                    for (i, m) in stack.iter().enumerate() {
+                        if let MwJob::Mark(id) = m {
+                            want.push(format!("enter {id} {}", if i < at { norm(&job.url) } else { last.clone() }));
+                            exits.push(format!("exit {id}"));
+                        }
+                    }
+                    exits.reverse();
+                    want.extend(exits);
+                    let got: Vec<String> = marks
+                        .iter()
+                        .map(|m| match m.strip_prefix("enter ") {
+                            Some(rest) => match rest.split_once(' ') {
+                                Some((id, url)) => format!("enter {id} {}", norm(url)),
+                                None => m.clone(),
+                            },
+                            None => m.clone(),
+                        })
+                        .collect();
+                    r.count("redirect_stacks_with_marks_compared", 1);
+                    if got != want {
+                        problems.push(("redirect/rest-of-the-stack-not-wrapped-around-the-final-request-once".into(), format!("observed {got:?} expected {want:?}")));
+                    }
                 }
             }
             None => {
